@@ -462,7 +462,11 @@ class Histogram1D(ObjectWithBinning, HistogramBase):
             weights=weights_array,
             validate_bins=False,
         )
-        self._add_contents(frequencies, errors2)
+        self._add_contents(
+            frequencies,
+            errors2,
+            missed=[underflow, overflow, 0] if self.keep_missed else 0,
+        )
         # TODO: check that adaptive does not produce under-/over-flows?
         if self.keep_missed:
             self.underflow += underflow
